@@ -80,6 +80,9 @@ class Engine(StmtMixin, EvalMixin, Interp):
         for exc in ("ValueError", "TypeError", "KeyError", "IndexError", "AttributeError", "StopIteration",
                     "NotImplementedError", "Exception", "AssertionError", "RuntimeError", "ZeroDivisionError"):
             B[exc] = BuiltinFn(exc, lambda interp, a, k, _e=exc: PyExc(_e))
+        for w in ("Warning", "UserWarning", "DeprecationWarning", "FutureWarning", "RuntimeWarning"):
+            # warning categories only ever reach warnings.warn (a no-op, A6): an inert value
+            B[w] = BuiltinFn(w, lambda interp, a, k, _w=w: Opaque(_w))
         B["None"] = None
         B["True"] = True
         B["False"] = False
